@@ -137,7 +137,8 @@ def get_count__total_expansion__c2c_expansion(length, total_expansion, c2c_expan
             f"\n\tTolerance: {constants.TOL}"
         )
 
-    return int(np.log(total_expansion) / np.log(c2c_expansion)) + 1
+    # (ratios that fit a whole number of cells exactly must not lose a cell to the last bit of the division)
+    return int(np.log(total_expansion) / np.log(c2c_expansion) + constants.TOL) + 1
 
 
 def get_count__total_expansion__start_size(length, total_expansion, start_size):
@@ -163,7 +164,10 @@ def get_count__total_expansion__start_size(length, total_expansion, start_size):
 
     # the root approaches length / d_min when total expansion approaches 1;
     # look a cell further so that it stays safely inside the bracket
-    return int(scipy.optimize.brentq(fcnt, 0, length / d_min + 1)) + 1  # type: ignore
+    count = scipy.optimize.brentq(fcnt, 0, length / d_min + 1)  # type: ignore
+
+    # round up, but keep a whole number of cells that fits exactly (as above)
+    return max(int(np.ceil(count - constants.TOL)), 1)
 
 
 ### functions returning c2c_expansion
